@@ -219,7 +219,8 @@ Definition phase_b (month0 : bool) (st : sstatic) (a : phaseA) (tr : Q) (remaini
   let '(pt, sp) := pregnant_slaughter st s actual in
   {| b_additive := additive; b_transfer := tp; b_other_death := od; b_slaughter := actual; b_pop1 := p1;
      b_ptot := pt; b_pbirth := pt / st_gest st; b_slpreg := sp;
-     b_remaining := remaining - actual * st_hours st |}.
+     b_remaining := Qred (remaining - actual * st_hours st) |}.
+(* Qred x == x: representation normalisation only (keeps the threaded hours' denominators small when evaluated) *)
 
 Fixpoint phase_b_loop (month0 : bool) (all : list (sstatic * phaseA)) (l : list (sstatic * phaseA)) (h : hours3)
   : list phaseB * hours3 :=
@@ -274,7 +275,7 @@ Definition phase_c (st : sstatic) (pop_start starving_pre : Q) (b : phaseB) (bud
   let p2 := b_pop1 b - (sd + hk2 + hk3) in
   {| c_hk_other := hk1; c_hk_healthy := hk2; c_hk_starving := hk3; c_hk_total := hk1 + hk2 + hk3;
      c_starve_death := sd; c_od_total := odt; c_ptot := pt; c_pbirth := pb;
-     c_pop := if Qltb p2 0 then 0 else p2; c_budget := bud3 |}.
+     c_pop := if Qltb p2 0 then 0 else p2; c_budget := Qred bud3 |}.   (* Qred x == x, as above *)
 
 Fixpoint phase_c_loop (l : list (sstatic * Q * Q * phaseB)) (budget : Q) : list phaseC :=
   match l with
